@@ -815,6 +815,17 @@ def ripParse (raw : Bytes) : XPkt :=
     else .rip ⟨command, version, ripEntriesParse raw.length (raw.drop 4)⟩
   | _ => .unparsed "rip" raw
 
+/-- udp.py:76-119 over `XPkt`.  The original `udpParse` stops (without the header) when the ports select RIP, VXLAN, DHCP
+or DNS; here the header fields are kept (they were read by the same `struct.unpack` before the port test, udp.py:86-87) and
+the payload goes on to the class the original model named. -/
+def udpParseX (next : XNext) (raw : Bytes) : XPkt :=
+  match udpParse raw with
+  | .unmodelled tag b =>
+    match unpack udpL (raw.take 8) with
+    | some [.num sport, .num dport, .num len, .num csum] => .udp ⟨sport, dport, len, csum⟩ (contOf next tag b)
+    | _ => .unmodelled tag b
+  | p => lift (contOf next) p
+
 /-- the whole-chain parser over `XPkt`; structural on fuel, old classes through their original parsers -/
 def xparse : Nat → Option XCtx → XKind → Bytes → XPkt
   | 0, _, _, raw => .unmodelled "fuel" raw
@@ -824,7 +835,7 @@ def xparse : Nat → Option XCtx → XKind → Bytes → XPkt
     | .core .vlan => lift (contOf (xparse fuel)) (vlanParse probe raw)
     | .core .arp => lift (contOf (xparse fuel)) (arpParse raw)
     | .core .ipv4 => lift (contOf (xparse fuel)) (ipv4Parse probe raw)
-    | .core .udp => lift (contOf (xparse fuel)) (udpParse raw)
+    | .core .udp => udpParseX (xparse fuel) raw
     | .core .tcp => lift (contOf (xparse fuel)) (tcpParse raw)
     | .core .icmp => lift (contOf (xparse fuel)) (icmpParse probe raw)
     | .core .echo => lift (contOf (xparse fuel)) (echoParse raw)
